@@ -97,7 +97,8 @@ func c15Body(s *simkit.Sim, rc *simkit.RunCtx) {
 	dids := map[string]did.DID{}
 	kids := map[string]string{}
 	// "outsider": an extra DID (hosted on the last node) that the scripted peer may authenticate as
-	owners := append(append([]string{}, names...), "outsider")
+	// "keyless": a DID without a keyAgreement key: nothing can be encrypted for it
+	owners := append(append([]string{}, names...), "outsider", "keyless")
 	for _, owner := range owners {
 		host := owner
 		nodeName := owner
@@ -105,17 +106,29 @@ func c15Body(s *simkit.Sim, rc *simkit.RunCtx) {
 			nodeName = names[nn-1]
 			host = "byz"
 		}
+		if owner == "keyless" {
+			nodeName = names[0]
+			host = "keyless"
+		}
 		n := w.Nodes[nodeName]
 		var err error
 		ok := s.Do("did@"+owner, 2*time.Minute, func() {
 			var docs []did.Document
 			var subject string
-			docs, subject, err = n.VDR.Create(world.Ctx(), didsubject.DefaultCreationOptions().With(didsubject.EncryptionKeyCreationOption{}))
+			opts := didsubject.DefaultCreationOptions()
+			if owner != "keyless" {
+				opts = opts.With(didsubject.EncryptionKeyCreationOption{})
+			}
+			docs, subject, err = n.VDR.Create(world.Ctx(), opts)
 			if err != nil {
 				return
 			}
 			dids[owner] = docs[0].ID
 			kids[owner] = docs[0].CapabilityInvocation[0].ID.String()
+			if owner == "keyless" {
+				err = n.VDR.Deactivate(world.Ctx(), subject) // a deactivated document has no keys at all
+				return
+			}
 			_, err = n.VDR.CreateService(world.Ctx(), subject, did.Service{Type: transport.NutsCommServiceType, ServiceEndpoint: "grpc://" + host + ".sim:5555"})
 		})
 		if !ok || err != nil {
@@ -268,6 +281,22 @@ func c15Body(s *simkit.Sim, rc *simkit.RunCtx) {
 			p.pal[dids[creator].String()] = true
 			p.names = append(p.names, creator)
 		}
+		// sometimes a participant for whom the list cannot be encrypted: the transaction must not come into being
+		unencryptable := s.D.Decide("pal-keyless-member", 5) == 4
+		if unencryptable {
+			if s.D.Decide("which-unencryptable", 2) == 0 {
+				// a DID nobody has published
+				participants = append(participants, did.MustParseDID("did:nuts:4tzMaWfpizVKeA8fscC3JTdWBc3asUWWMj5hUFHdWX3H"))
+				p.names = append(p.names, "unknown-did")
+			} else {
+				// a deactivated DID
+				participants = append(participants, dids["keyless"])
+				p.names = append(p.names, "deactivated-did")
+			}
+			if s.D.Decide("keyless-first", 2) == 1 {
+				participants[0], participants[len(participants)-1] = participants[len(participants)-1], participants[0]
+			}
+		}
 		payload := append([]byte("{\"secret\":\""), append(p.marker, []byte("\"}")...)...)
 		var tx dag.Transaction
 		var err error
@@ -284,6 +313,25 @@ func c15Body(s *simkit.Sim, rc *simkit.RunCtx) {
 			tpl := network.TransactionTemplate("application/x-sim-private", payload, kids[creator]).WithPrivate(participants).WithAdditionalPrevs(meta.SourceTransactions)
 			tx, err = w.Nodes[creator].Net.CreateTransaction(world.Ctx(), tpl)
 		})
+		if unencryptable {
+			s.Probes.Inc("participant-without-key-agreement-key")
+			sample.Private = append(sample.Private, fmt.Sprintf("by %s for %v: %v", creator, p.names, err))
+			if err == nil {
+				// it exists: then it must carry a list, like every private transaction (the monitor watches its payload anyway)
+				if len(tx.PAL()) == 0 {
+					s.Fail("C15.leak", "published-without-list", "node %s published a transaction meant for %v as a public one (no participant list) when the list could not be encrypted for one participant", creator, p.names)
+					return
+				}
+				p.ref = tx.Ref()
+			}
+			// whether refused or not: give it time to spread, the monitor sees every envelope
+			s.Advance(time.Duration(3+s.D.Decide("spread", 10)) * time.Second)
+			for _, target := range names {
+				_ = w.P2P.Inject("byz", target, &v2.Envelope{Message: &v2.Envelope_TransactionRangeQuery{TransactionRangeQuery: &v2.TransactionRangeQuery{ConversationID: []byte("conv-1234567890-abcdef-1234567899"), Start: 0, End: 1000}}})
+			}
+			s.Advance(2 * time.Second)
+			continue
+		}
 		if err != nil {
 			s.Fail("C15.harness", "create-private", "%v", err)
 			return
